@@ -8,16 +8,102 @@
   encoding — compared byte-for-byte with `Seal` / `NewEncryptStream` of the
   implementation by the correspondence — and `C01_wire` is the MessagePack round
   trip that relates bytes and structures.
+
+  Keyrings: `C01_roundtrip_ring` / `C01_roundtrip_ring_unique` (and their
+  `_bytes` forms) are about ANY keyring `faithfulKeyring P sks` that holds a
+  recipient's key somewhere among other keys (proofs: Proofs/RingEnc.lean,
+  RingRT.lean); `C01_roundtrip` / `C01_roundtrip_bytes` (ring = exactly that one
+  key) are their corollaries.
 -/
 import Saltpack.Proofs.RoundTripEnc
 import Saltpack.Proofs.MsgpackRT
 import Saltpack.Proofs.WireRT
+import Saltpack.Proofs.RingRT
+import Saltpack.Proofs.ArmoredRT
 import Saltpack.Toy
 
 namespace Saltpack.Props.C01
 open Saltpack Saltpack.Encrypt Saltpack.Proofs
 
-/-- **Round trip.** For every plaintext, both versions, named or anonymous
+/-- **Round trip, any keyring that holds a recipient's key.**  For every
+    plaintext, both versions, named or anonymous sender, every non-empty list of
+    recipients with distinct keys in any visible/hidden pattern, every chunk
+    size, and every keyring `sks` (any number of box secret keys, in any order)
+    that contains the secret key `sk` of SOME recipient position `i`:
+    the message opens to exactly the plaintext, with the true sender key (or the
+    ephemeral key and the anonymous flag), the list of named recipients — and it
+    opens *as some recipient `i'` whose secret key `sk'` is in the ring*: the
+    reported receiver key, hidden flag and anonymous-recipient count are those
+    of `i'`.  (If the ring holds the keys of several recipients the receiver
+    picks one: the first visible recipient, in header order, whose key is in the
+    ring; failing that the first ring key, in ring order, that belongs to a
+    hidden recipient.  `C01_roundtrip_ring_unique` says `i' = i`, `sk' = sk`
+    when only one recipient's key is in the ring.)
+    Hypotheses beyond `Prims.Lawful`: a named sender's key differs from the
+    ephemeral key (`hnamed`); visible recipients have non-empty key ids (`hpub`);
+    `RingNoSpuriousOpen` — no key of the ring opens the payload-key box of a
+    hidden recipient that precedes its own entry (for a foreign key: of any
+    hidden recipient): `tryHiddenReceivers` tries every ring key against every
+    hidden entry, and authenticated encryption is what makes the wrong ones
+    fail; it is the standing assumption on `box`, not a consequence of
+    `Prims.Lawful` (see the toy counterexample at the end of this file). -/
+theorem C01_roundtrip_ring (P : Prims) (hP : P.Lawful) (bs : Nat) (hbs : 0 < bs)
+    (v : Version) (hv : v = v1 ∨ v = v2)
+    (sender : Option Bytes) (rs : List Recipient) (eph payloadKey pt : Bytes)
+    (hpk : payloadKey.length = 32)
+    (hnamed : ∀ s, sender = some s → P.boxPub s ≠ P.boxPub eph)
+    (hpub : ∀ r ∈ rs, r.hidden = false → r.pub ≠ [])
+    (sks : List Bytes) (i : Nat) (hi : i < rs.length) (sk : Bytes) (hmem : sk ∈ sks)
+    (hsk : (rs.getD i default).pub = P.boxPub sk)
+    (hns : RingNoSpuriousOpen P v eph payloadKey rs sks)
+    (h : EncHeader) (hb : Bytes) (blks : List EncBlock)
+    (hseal : sealPackets P bs v sender rs eph payloadKey pt = .ok (h, hb, blks)) :
+    ∃ i' sk', i' < rs.length ∧ sk' ∈ sks ∧ (rs.getD i' default).pub = P.boxPub sk' ∧
+      Decrypt.openAll P knownMajor (faithfulKeyring P sks) (.ok hb h) ⟨blks.map some, .eof⟩ =
+        .ok ({ senderKey := P.boxPub (sender.getD eph), senderIsAnon := sender.isNone,
+               receiverKey := sk', receiverIsAnon := (rs.getD i' default).hidden,
+               namedReceivers := (rs.filter (fun r => !r.hidden)).map (·.pub),
+               numAnonReceivers := if (rs.getD i' default).hidden then (rs.filter (·.hidden)).length else 0 }, pt) :=
+  enc_roundtrip_seal_ring P hP bs hbs v hv sender rs eph payloadKey pt hpk hnamed hpub sks i hi sk hmem hsk hns
+    h hb blks hseal
+
+/-- **…with the exact key information when the ring holds one recipient's key
+    only** (`honly`: every other key of the ring is foreign — extra keys before
+    and after the recipient key, in any number): the receiver reports exactly
+    recipient `i`, its key `sk` and its hidden flag, wherever `sk` sits in the ring. -/
+theorem C01_roundtrip_ring_unique (P : Prims) (hP : P.Lawful) (bs : Nat) (hbs : 0 < bs)
+    (v : Version) (hv : v = v1 ∨ v = v2)
+    (sender : Option Bytes) (rs : List Recipient) (eph payloadKey pt : Bytes)
+    (hpk : payloadKey.length = 32)
+    (hnamed : ∀ s, sender = some s → P.boxPub s ≠ P.boxPub eph)
+    (hpub : ∀ r ∈ rs, r.hidden = false → r.pub ≠ [])
+    (sks : List Bytes) (i : Nat) (hi : i < rs.length) (sk : Bytes) (hmem : sk ∈ sks)
+    (hsk : (rs.getD i default).pub = P.boxPub sk)
+    (honly : ∀ s ∈ sks, ∀ j, j < rs.length → (rs.getD j default).pub = P.boxPub s → j = i ∧ s = sk)
+    (hns : RingNoSpuriousOpen P v eph payloadKey rs sks)
+    (h : EncHeader) (hb : Bytes) (blks : List EncBlock)
+    (hseal : sealPackets P bs v sender rs eph payloadKey pt = .ok (h, hb, blks)) :
+    Decrypt.openAll P knownMajor (faithfulKeyring P sks) (.ok hb h) ⟨blks.map some, .eof⟩ =
+      .ok ({ senderKey := P.boxPub (sender.getD eph), senderIsAnon := sender.isNone,
+             receiverKey := sk, receiverIsAnon := (rs.getD i default).hidden,
+             namedReceivers := (rs.filter (fun r => !r.hidden)).map (·.pub),
+             numAnonReceivers := if (rs.getD i default).hidden then (rs.filter (·.hidden)).length else 0 }, pt) :=
+  enc_roundtrip_seal_ring_unique P hP bs hbs v hv sender rs eph payloadKey pt hpk hnamed hpub sks i hi sk hmem hsk
+    honly hns h hb blks hseal
+
+/-- the hypothesis on the ring in its plain (stronger) form: no key of the ring
+    opens a hidden entry that is not its own -/
+theorem C01_ring_hypothesis_plain (P : Prims) (v : Version) (eph payloadKey : Bytes) (rs : List Recipient)
+    (sks : List Bytes)
+    (h : ∀ s ∈ sks, ∀ j, j < rs.length → (rs.getD j default).hidden = true →
+      (rs.getD j default).pub ≠ P.boxPub s → ∀ n, Nonce.payloadKeyBox v j = .ok n →
+        P.unbox s (P.boxPub eph) n (P.box eph (rs.getD j default).pub n payloadKey) = none) :
+    RingNoSpuriousOpen P v eph payloadKey rs sks :=
+  RingNoSpuriousOpen.of_foreign h
+
+/-- **Round trip, keyring = exactly the recipient's key** (corollary of
+    `C01_roundtrip_ring_unique`: `sks = [sk]`).  For every plaintext, both
+    versions, named or anonymous
     sender, every non-empty list of recipients with distinct keys in any
     visible/hidden pattern, every chunk size and every recipient position `i`:
     the holder of recipient `i`'s secret key opens the message to exactly the
@@ -27,7 +113,8 @@ open Saltpack Saltpack.Encrypt Saltpack.Proofs
     Hypotheses beyond `Prims.Lawful`: a named sender's key differs from the
     ephemeral key (`hnamed`); visible recipients have non-empty key ids (`hpub`);
     `NoSpuriousOpen` — the opener's key does not open the payload-key boxes of
-    hidden recipients that precede it (the standing assumption on `box`). -/
+    hidden recipients that precede it (the standing assumption on `box`;
+    exercised by the `example` with `i = 1` at the end of this file). -/
 theorem C01_roundtrip (P : Prims) (hP : P.Lawful) (bs : Nat) (hbs : 0 < bs)
     (v : Version) (hv : v = v1 ∨ v = v2)
     (sender : Option Bytes) (rs : List Recipient) (eph payloadKey pt : Bytes)
@@ -44,7 +131,8 @@ theorem C01_roundtrip (P : Prims) (hP : P.Lawful) (bs : Nat) (hbs : 0 < bs)
              receiverKey := sk, receiverIsAnon := (rs.getD i default).hidden,
              namedReceivers := (rs.filter (fun r => !r.hidden)).map (·.pub),
              numAnonReceivers := if (rs.getD i default).hidden then (rs.filter (·.hidden)).length else 0 }, pt) :=
-  enc_roundtrip P hP bs hbs v hv sender rs eph payloadKey pt hpk hnamed hpub hblocks i hi sk hsk hns h hb blks hseal
+  have _ := hblocks
+  enc_roundtrip_of_ring P hP bs hbs v hv sender rs eph payloadKey pt hpk hnamed hpub i hi sk hsk hns h hb blks hseal
 
 /-- a keyring holding none of the recipient keys (and opening none of the boxes)
     gets `noDecryptionKey` and no plaintext -/
@@ -99,13 +187,58 @@ theorem C01_wire (v : Msgpack.Val) (hv : ValWF v) (rest : Bytes) :
     Msgpack.parse1 (Msgpack.encode v ++ rest) = .ok (v, rest) :=
   parse1_encode v hv rest
 
-/-- **Round trip on the emitted BYTES.** The message `Seal` emits, split the way
-    a receiver's MessagePack stream splits it (`Wire.splitEnc`: header bytes,
-    header, payload packets, clean end), opens at every recipient position to the
-    plaintext with the same key info as `C01_roundtrip` — the composition of the
-    structure-level round trip with the MessagePack round trip of every packet.
-    (Size hypotheses: everything fits MessagePack's 32-bit lengths; real
+/-- **Round trip on the emitted BYTES, any keyring that holds a recipient's key.**
+    The message `Seal` emits, split the way a receiver's MessagePack stream
+    splits it (`Wire.splitEnc`: header bytes, header, payload packets, clean
+    end), opens with the same key info as `C01_roundtrip_ring` — the composition
+    of the structure-level round trip with the MessagePack round trip of every
+    packet.  (Size hypotheses: everything fits MessagePack's 32-bit lengths; real
     parameters satisfy them — see the `example` in Proofs/WireRT.lean.) -/
+theorem C01_roundtrip_bytes_ring (P : Prims) (hP : P.Lawful) (bs : Nat) (hbs : 0 < bs) (hbs32 : bs + 16 < 2 ^ 32)
+    (v : Version) (hv : v = v1 ∨ v = v2)
+    (sender : Option Bytes) (rs : List Encrypt.Recipient) (eph payloadKey pt : Bytes)
+    (hpk : payloadKey.length = 32)
+    (hnamed : ∀ s, sender = some s → P.boxPub s ≠ P.boxPub eph)
+    (hpub : ∀ r ∈ rs, r.hidden = false → r.pub ≠ [])
+    (sks : List Bytes) (i : Nat) (hi : i < rs.length) (sk : Bytes) (hmem : sk ∈ sks)
+    (hsk : (rs.getD i default).pub = P.boxPub sk)
+    (hns : RingNoSpuriousOpen P v eph payloadKey rs sks)
+    (L : Nat) (hL : ∀ r ∈ rs, r.pub.length ≤ L) (hsmall : 145 + rs.length * (L + 63) < 2 ^ 32)
+    (msg : Bytes) (hmsg : Encrypt.sealWith P bs v sender rs eph payloadKey pt = .ok msg) :
+    ∃ hr ps, Wire.splitEnc msg = .ok (hr, ps) ∧
+      ∃ i' sk', i' < rs.length ∧ sk' ∈ sks ∧ (rs.getD i' default).pub = P.boxPub sk' ∧
+        Decrypt.openAll P knownMajor (faithfulKeyring P sks) hr ps =
+          .ok ({ senderKey := P.boxPub (sender.getD eph), senderIsAnon := sender.isNone,
+                 receiverKey := sk', receiverIsAnon := (rs.getD i' default).hidden,
+                 namedReceivers := (rs.filter (fun r => !r.hidden)).map (·.pub),
+                 numAnonReceivers := if (rs.getD i' default).hidden then (rs.filter (·.hidden)).length else 0 }, pt) :=
+  enc_roundtrip_bytes_ring P hP bs hbs hbs32 v hv sender rs eph payloadKey pt hpk hnamed hpub sks i hi sk hmem hsk hns
+    L hL hsmall msg hmsg
+
+/-- …with the exact key information when the ring holds one recipient's key only -/
+theorem C01_roundtrip_bytes_ring_unique (P : Prims) (hP : P.Lawful) (bs : Nat) (hbs : 0 < bs)
+    (hbs32 : bs + 16 < 2 ^ 32) (v : Version) (hv : v = v1 ∨ v = v2)
+    (sender : Option Bytes) (rs : List Encrypt.Recipient) (eph payloadKey pt : Bytes)
+    (hpk : payloadKey.length = 32)
+    (hnamed : ∀ s, sender = some s → P.boxPub s ≠ P.boxPub eph)
+    (hpub : ∀ r ∈ rs, r.hidden = false → r.pub ≠ [])
+    (sks : List Bytes) (i : Nat) (hi : i < rs.length) (sk : Bytes) (hmem : sk ∈ sks)
+    (hsk : (rs.getD i default).pub = P.boxPub sk)
+    (honly : ∀ s ∈ sks, ∀ j, j < rs.length → (rs.getD j default).pub = P.boxPub s → j = i ∧ s = sk)
+    (hns : RingNoSpuriousOpen P v eph payloadKey rs sks)
+    (L : Nat) (hL : ∀ r ∈ rs, r.pub.length ≤ L) (hsmall : 145 + rs.length * (L + 63) < 2 ^ 32)
+    (msg : Bytes) (hmsg : Encrypt.sealWith P bs v sender rs eph payloadKey pt = .ok msg) :
+    ∃ hr ps, Wire.splitEnc msg = .ok (hr, ps) ∧
+      Decrypt.openAll P knownMajor (faithfulKeyring P sks) hr ps =
+        .ok ({ senderKey := P.boxPub (sender.getD eph), senderIsAnon := sender.isNone,
+               receiverKey := sk, receiverIsAnon := (rs.getD i default).hidden,
+               namedReceivers := (rs.filter (fun r => !r.hidden)).map (·.pub),
+               numAnonReceivers := if (rs.getD i default).hidden then (rs.filter (·.hidden)).length else 0 }, pt) :=
+  enc_roundtrip_bytes_ring_unique P hP bs hbs hbs32 v hv sender rs eph payloadKey pt hpk hnamed hpub sks i hi sk hmem
+    hsk honly hns L hL hsmall msg hmsg
+
+/-- **Round trip on the emitted BYTES, keyring = exactly the recipient's key**
+    (corollary of `C01_roundtrip_bytes_ring_unique`). -/
 theorem C01_roundtrip_bytes (P : Prims) (hP : P.Lawful) (bs : Nat) (hbs : 0 < bs) (hbs32 : bs + 16 < 2 ^ 32)
     (v : Version) (hv : v = v1 ∨ v = v2)
     (sender : Option Bytes) (rs : List Encrypt.Recipient) (eph payloadKey pt : Bytes)
@@ -122,11 +255,128 @@ theorem C01_roundtrip_bytes (P : Prims) (hP : P.Lawful) (bs : Nat) (hbs : 0 < bs
         .ok ({ senderKey := P.boxPub (sender.getD eph), senderIsAnon := sender.isNone,
                receiverKey := sk, receiverIsAnon := (rs.getD i default).hidden,
                namedReceivers := (rs.filter (fun r => !r.hidden)).map (·.pub),
-               numAnonReceivers := if (rs.getD i default).hidden then (rs.filter (·.hidden)).length else 0 }, pt) :=
-  enc_roundtrip_bytes P hP bs hbs hbs32 v hv sender rs eph payloadKey pt hpk hnamed hpub hblocks i hi sk hsk hns
-    L hL hsmall msg hmsg
+               numAnonReceivers := if (rs.getD i default).hidden then (rs.filter (·.hidden)).length else 0 }, pt) := by
+  have _ := hblocks
+  obtain ⟨_, _, _, _, hs, _, _⟩ := seal_bytes_are_packets_enc P bs v sender rs eph payloadKey pt msg hmsg
+  obtain ⟨hcr, _⟩ := sealPackets_inv P bs v sender rs eph payloadKey pt _ _ _ hs
+  obtain ⟨_, hnd⟩ := checkReceivers_inv hcr
+  exact enc_roundtrip_bytes_ring_unique P hP bs hbs hbs32 v hv sender rs eph payloadKey pt hpk hnamed hpub [sk] i hi sk
+    (by simp) hsk (honly_single P rs hnd i hi sk hsk) (RingNoSpuriousOpen.single hsk hns) L hL hsmall msg hmsg
+
+/-- **Armored round trip** (`EncryptArmor62Seal` ∘ `Dearmor62DecryptOpen`, model
+    level): the armored text of the message dearmors, with validated
+    `BEGIN/END [brand] SALTPACK ENCRYPTED MESSAGE` frames (`C11_roundtrip`), to
+    exactly the binary message and the brand, and that payload splits and opens
+    as in `C01_roundtrip_bytes_ring`. -/
+theorem C01_roundtrip_armored (P : Prims) (hP : P.Lawful) (bs : Nat) (hbs : 0 < bs) (hbs32 : bs + 16 < 2 ^ 32)
+    (v : Version) (hv : v = v1 ∨ v = v2)
+    (sender : Option Bytes) (rs : List Encrypt.Recipient) (eph payloadKey pt : Bytes)
+    (hpk : payloadKey.length = 32)
+    (hnamed : ∀ s, sender = some s → P.boxPub s ≠ P.boxPub eph)
+    (hpub : ∀ r ∈ rs, r.hidden = false → r.pub ≠ [])
+    (sks : List Bytes) (i : Nat) (hi : i < rs.length) (sk : Bytes) (hmem : sk ∈ sks)
+    (hsk : (rs.getD i default).pub = P.boxPub sk)
+    (hns : RingNoSpuriousOpen P v eph payloadKey rs sks)
+    (L : Nat) (hL : ∀ r ∈ rs, r.pub.length ≤ L) (hsmall : 145 + rs.length * (L + 63) < 2 ^ 32)
+    (brand : Bytes) (hbr : BrandOK brand)
+    (msg : Bytes) (hmsg : Encrypt.sealWith P bs v sender rs eph payloadKey pt = .ok msg) :
+    ∃ r hr ps, Armor.open62 (some mtEncryption) (Armor.seal62 mtEncryption brand msg) = .ok r ∧
+      r.payload = msg ∧ r.brand = brand ∧
+      Wire.splitEnc r.payload = .ok (hr, ps) ∧
+      ∃ i' sk', i' < rs.length ∧ sk' ∈ sks ∧ (rs.getD i' default).pub = P.boxPub sk' ∧
+        Decrypt.openAll P knownMajor (faithfulKeyring P sks) hr ps =
+          .ok ({ senderKey := P.boxPub (sender.getD eph), senderIsAnon := sender.isNone,
+                 receiverKey := sk', receiverIsAnon := (rs.getD i' default).hidden,
+                 namedReceivers := (rs.filter (fun r => !r.hidden)).map (·.pub),
+                 numAnonReceivers := if (rs.getD i' default).hidden then (rs.filter (·.hidden)).length else 0 }, pt) :=
+  enc_armored_roundtrip_ring P hP bs hbs hbs32 v hv sender rs eph payloadKey pt hpk hnamed hpub sks i hi sk hmem hsk
+    hns L hL hsmall brand hbr msg hmsg
 
 /-! ## non-vacuity -/
 example : Toy.prims.Lawful := Toy.lawful
+
+/-- the toy recipients of the examples below: two HIDDEN recipients -/
+def toyRs : List Recipient := [⟨Toy.prims.boxPub [4], true⟩, ⟨Toy.prims.boxPub [3], true⟩]
+
+/-- `NoSpuriousOpen` for the second (hidden) recipient `[3]`, position `i = 1`:
+    its key does not open the box made for the hidden recipient `[4]` at
+    position 0 — a genuine obligation (`j = 0 < i`), here met because the two
+    toy keys differ within their first 16 bytes -/
+theorem toy_noSpurious : NoSpuriousOpen Toy.prims v2 [2] (Toy.pad 32 [9]) toyRs 1 [3] := by
+  intro j hj _ n hn
+  have hj0 : j = 0 := by omega
+  subst hj0
+  have : n = Nonce.payloadKeyBoxV2 0 := by
+    simp only [Nonce.payloadKeyBox, show v2.major = 2 from rfl, show ¬ ((2 : Int) = 1) by decide,
+      if_true, if_false, Except.ok.injEq] at hn
+    exact hn.symm
+  subst this
+  decide
+
+/-- **`C01_roundtrip` instantiated with a hidden entry and `i = 1 > 0`** (so
+    that `NoSpuriousOpen` is exercised): the holder of `[3]` opens the message
+    of the named sender `[1]` to the plaintext, as the anonymous recipient at
+    position 1 -/
+example : ∃ h hb blks,
+    sealPackets Toy.prims 4 v2 (some [1]) toyRs [2] (Toy.pad 32 [9]) [1, 2, 3, 4, 5] = .ok (h, hb, blks) ∧
+    Decrypt.openAll Toy.prims knownMajor (faithfulKeyring Toy.prims [[3]]) (.ok hb h) ⟨blks.map some, .eof⟩ =
+      .ok ({ senderKey := Toy.prims.boxPub [1], senderIsAnon := false, receiverKey := [3],
+             receiverIsAnon := true, namedReceivers := [], numAnonReceivers := 2 }, [1, 2, 3, 4, 5]) := by
+  obtain ⟨h, hb, blks, hs, _⟩ := C01_seal_total Toy.prims 4 v2 (Or.inr rfl) (some [1]) toyRs [2] (Toy.pad 32 [9])
+    [1, 2, 3, 4, 5] (by decide) (by decide) (by decide) (by decide)
+  refine ⟨h, hb, blks, hs, ?_⟩
+  exact C01_roundtrip Toy.prims Toy.lawful 4 (by decide) v2 (Or.inr rfl) (some [1]) toyRs [2] (Toy.pad 32 [9])
+    [1, 2, 3, 4, 5] (by decide) (by intro s hs; cases hs; decide) (by decide) (by decide)
+    1 (by decide) [3] (by decide) toy_noSpurious h hb blks hs
+
+/-- the same message opened with a ring of three keys — a foreign key, the
+    recipient's key, another foreign key (`C01_roundtrip_ring_unique`) -/
+example : ∃ h hb blks,
+    sealPackets Toy.prims 4 v2 (some [1]) toyRs [2] (Toy.pad 32 [9]) [1, 2, 3, 4, 5] = .ok (h, hb, blks) ∧
+    Decrypt.openAll Toy.prims knownMajor (faithfulKeyring Toy.prims [[7], [3], [8]]) (.ok hb h)
+        ⟨blks.map some, .eof⟩ =
+      .ok ({ senderKey := Toy.prims.boxPub [1], senderIsAnon := false, receiverKey := [3],
+             receiverIsAnon := true, namedReceivers := [], numAnonReceivers := 2 }, [1, 2, 3, 4, 5]) := by
+  obtain ⟨h, hb, blks, hs, _⟩ := C01_seal_total Toy.prims 4 v2 (Or.inr rfl) (some [1]) toyRs [2] (Toy.pad 32 [9])
+    [1, 2, 3, 4, 5] (by decide) (by decide) (by decide) (by decide)
+  refine ⟨h, hb, blks, hs, ?_⟩
+  refine C01_roundtrip_ring_unique Toy.prims Toy.lawful 4 (by decide) v2 (Or.inr rfl) (some [1]) toyRs [2]
+    (Toy.pad 32 [9]) [1, 2, 3, 4, 5] (by decide) (by intro s hs; cases hs; decide) (by decide)
+    [[7], [3], [8]] 1 (by decide) [3] (by decide) (by decide) ?_ ?_ h hb blks hs
+  · intro s hs j hj heq
+    have hs' : s = [7] ∨ s = [3] ∨ s = [8] := by simpa using hs
+    have hj' : j = 0 ∨ j = 1 := by
+      have : j < 2 := hj
+      omega
+    rcases hs' with rfl | rfl | rfl <;> rcases hj' with rfl | rfl <;>
+      first
+        | exact ⟨rfl, rfl⟩
+        | exact absurd heq (by decide)
+  · apply C01_ring_hypothesis_plain
+    intro s hs j hj _ hne n hn
+    have hs' : s = [7] ∨ s = [3] ∨ s = [8] := by simpa using hs
+    have hj' : j = 0 ∨ j = 1 := by
+      have : j < 2 := hj
+      omega
+    have hn' : n = Nonce.payloadKeyBoxV2 j := by
+      simp only [Nonce.payloadKeyBox, show v2.major = 2 from rfl, show ¬ ((2 : Int) = 1) by decide,
+        if_true, if_false, Except.ok.injEq] at hn
+      exact hn.symm
+    subst hn'
+    rcases hs' with rfl | rfl | rfl <;> rcases hj' with rfl | rfl <;>
+      first
+        | decide
+        | exact absurd rfl hne
+
+/-- `NoSpuriousOpen` is NOT a consequence of `Prims.Lawful`: the toy "box" puts
+    a 16-byte tag derived from the first 16 bytes of the shared key in front of
+    the plaintext, so two keys that agree on their first 16 bytes open each
+    other's boxes.  (The hypothesis is true of the toy primitives exactly for
+    keys that differ within their first 16 bytes, as in the examples above.) -/
+example : ¬ NoSpuriousOpen Toy.prims v2 [2] (Toy.pad 32 [9])
+    [⟨Toy.prims.boxPub (zeros 16 ++ [1]), true⟩, ⟨Toy.prims.boxPub (zeros 16 ++ [2]), true⟩] 1 (zeros 16 ++ [2]) := by
+  intro h
+  have := h 0 (by decide) (by decide) (Nonce.payloadKeyBoxV2 0) (by decide)
+  exact absurd this (by decide)
 
 end Saltpack.Props.C01
